@@ -123,6 +123,9 @@ def _gen_atomic(o, nparts, has_perf, cfg):
     if k in ("save_match", "save_match_file"):
         # default of the public API: the exporter unfolds the part itself to match the alignment
         op.update(auto_unfold=o.random() < 0.4, target="part0")
+        if k == "save_match_file":
+            # the score may be given as a Part, as the Score that holds it, or as a list of parts (the first is used)
+            op.update(score_form=o.choice(("part", "part", "score", "list")))
     if cfg == "fault" and k in ("save_xml", "save_midi", "perf_midi", "save_match_file") and op.get("route") != "str" and o.random() < 0.6:
         op["fault"] = {"kind": o.choice(("write_error", "write_error", "close_error", "crash") + (("open_error",) if op.get("route") == "path" else ())), "at": o.choice((0, 1, 2, 3, 5, 8, 20)), "errno": o.choice((28, 5))}
     return op
@@ -569,7 +572,8 @@ def run_atomic(w, op, res, sink=None):
             from partitura.io.exportmatch import save_match
 
             o = out_for("path")
-            save_match(w.align, w.perf.performedparts[0], w.score.parts[0], o.path, assume_unfolded=not op.get("auto_unfold"))
+            sd = {"score": w.score, "list": list(w.score.parts)}.get(op.get("score_form"), w.score.parts[0])
+            save_match(w.align, w.perf.performedparts[0], sd, o.path, assume_unfolded=not op.get("auto_unfold"))
             return bytes(o.data)
         if k == "save_match":
             from partitura.io.exportmatch import matchfile_from_alignment
